@@ -362,6 +362,8 @@ def script_id(o):
     s, p = o.get("script", ""), o.get("param", 0)
     if ":" in s:
         return s
+    if s.startswith("full_queue_end"):
+        return "fullqueue:0"
     if s.startswith("burst_mixed"):
         return "burstmix:%d" % p
     if s.startswith("burst_joined"):
